@@ -253,4 +253,46 @@ def reportProblemsR (k : Nat) (tv : String → Vec) (t : T) (exact checkInner ti
   p1 ++ p2 ++ perNode
 
 
+/- ## problems with their kind (so that a known finding can be matched by KIND and by PLACE) -/
+
+inductive PKind where
+  | steps | shape | tip (i : Nat) | inner (i : Nat) | joint
+  deriving Repr, BEq
+
+structure Problem where
+  kind : PKind
+  msg : String
+
+/-- the same clauses as `reportProblems` (tips always compared exactly), each problem with its kind -/
+def reportProblemsK (k : Nat) (tv : String → Vec) (t : T) (exact checkInner : Bool) (r : Report) : List Problem :=
+  let mc := minCost k tv t
+  let opt := (totA k tv (vzero k) t).flat
+  let leaf := leafFlags t
+  let n := leaf.length
+  let p1 : List Problem := if r.steps != mc then [⟨.steps, "steps " ++ toString r.steps ++ " but the minimum is " ++ toString mc⟩] else []
+  let p2 : List Problem := if r.sets.length != n then [⟨.shape, "number of nodes"⟩] else []
+  let perNode : List Problem := (List.range n).filterMap fun i =>
+    let rep := sortNat (r.sets.getD i [])
+    let o := opt.getD i []
+    if leaf.getD i false then
+      if rep != members k o then some ⟨.tip i, "tip " ++ toString i ++ " altered"⟩ else none
+    else if !checkInner then none
+    else
+      let os := (List.range k).filter fun s => o.at s == mc
+      if exact then (if rep != os then some ⟨.inner i, "node " ++ toString i ++ ": reported set is not the set of optimal states"⟩ else none)
+      else (if rep.isEmpty || !subset rep os then some ⟨.inner i, "node " ++ toString i ++ ": a reported state is in no most parsimonious reconstruction"⟩ else none)
+  let p4 : List Problem :=
+    if r.sets.length == n && r.sets.all (·.length == 1) then
+      let l := (labelOf t (r.sets.map fun s => s.headD 0)).1
+      if l.changes != mc then [⟨.joint, "unambiguous output has " ++ toString l.changes ++ " changes, minimum " ++ toString mc⟩] else []
+    else []
+  p1 ++ p2 ++ perNode ++ p4
+
+/-- the tip slices as the CODE reads a nucleotide column (a character without `IupacCode` entry = no state);
+    used only to decide whether a failure is the known finding AsrNonIupacCharEmptySet -/
+def codeAsrTipVec (m : List (String × String)) (j : Nat) (n : String) : Vec :=
+  match lookup m n with
+  | some sq => let codes := iupac (sq.toList.getD j ' '); tab 6 fun i => if codes.contains i then 1 else 0
+  | none => vzero 6
+
 end Gotree.C12
